@@ -65,6 +65,9 @@ class Ledger:
 def discharge_one(ob, budget, smoke_budget, ledger_entry, thorough):
     """ob: dict(name, kind, path, hash). Returns result dict."""
     res = dict(name=ob['name'], kind=ob['kind'], hash=ob['hash'], tries=[])
+    if ob.get('precomputed') is not None:      # obligations decided by direct comparison (syntactic template coverage)
+        v = ob['precomputed'] if ob['precomputed'] in ('sat', 'unsat') else 'unknown'
+        res.update(verdict=v, time=0.0, solver='syntactic', model=ob.get('detail', ''), tries=[('syntactic', v, 0.0)]); return res
     if ob['kind'] == 'smoke':
         v, dt, _ = run_z3(ob['path'], smoke_budget)
         res['tries'].append(('z3', v, round(dt, 2)))
@@ -173,7 +176,7 @@ def discharge_all(obs, ledger, budget=30, smoke_budget=2, thorough=False, jobs=N
             if progress:
                 progress(i, r)
     # retry round: what stayed undecided while all cores were busy is re-tried on a quiet machine, all variants in parallel
-    retry = [i for i, r in enumerate(results) if r['kind'] != 'smoke' and r['verdict'] not in ('unsat', 'sat')]
+    retry = [i for i, r in enumerate(results) if r['kind'] != 'smoke' and r['verdict'] not in ('unsat', 'sat') and obs[i].get('path')]
     if retry and len(retry) <= 48:
         with ThreadPoolExecutor(max_workers=2) as pool:
             futs = {i: pool.submit(portfolio, obs[i], budget * 4) for i in retry}
